@@ -294,6 +294,18 @@ func (c *Ctx) pan1() {
 						}
 					}
 				}
+				if row == nil && isHelper {
+					hf := c.P.Func(s.Func)
+					if pkgName == "mqtttest" {
+						hf = c.P.TestFunc(s.Func)
+					}
+					if hf != nil {
+						if ok, why := c.helperPrecondition(hf, s.Line); ok {
+							c.S.OK("PAN-1", key, pos, s.Func, "helper introduced later: "+why, true)
+							continue
+						}
+					}
+				}
 				if row == nil {
 					c.S.Unknown("PAN-1", key, pos, s.Func, "the compiler cannot prove this bounds check and no reasoned table row covers it: a new index or slice expression that may panic on hostile or damaged input")
 					continue
@@ -466,4 +478,138 @@ func indexInstrsOnLine(c *Ctx, b *ssa.BasicBlock, line int) []ssa.Instruction {
 		}
 	}
 	return out
+}
+
+// helperPrecondition decides an unproven bounds check inside a helper
+// introduced after the table was written, when the access is on a parameter
+// with constant offsets (p[k], p[:k], p[len(p)-k:] …): the length the access
+// needs must be established, by comparisons, on every path to every call of
+// the helper. (Inside the function the code came from the compiler proved the
+// check from the very same comparisons; extracting it hid them.)
+func (c *Ctx) helperPrecondition(fn *ssa.Function, line int) (ok bool, why string) {
+	var need int64 = -1
+	var param *ssa.Parameter
+	lenOff := func(v ssa.Value, p *ssa.Parameter) (int64, bool) { // len(p) - k
+		bo, isB := stripConv(v).(*ssa.BinOp)
+		if !isB || bo.Op != token.SUB {
+			return 0, false
+		}
+		if arg, isLen := builtinCall(bo.X, "len"); !isLen || arg != ssa.Value(p) {
+			return 0, false
+		}
+		return intConst(bo.Y)
+	}
+	bound := func(v ssa.Value, p *ssa.Parameter, index bool) (int64, bool) {
+		if v == nil {
+			return 0, true
+		}
+		if k, isK := intConst(v); isK && k >= 0 {
+			if index {
+				return k + 1, true
+			}
+			return k, true
+		}
+		if k, isOff := lenOff(v, p); isOff && k >= 0 {
+			if index && k == 0 {
+				return 0, false
+			}
+			return k, true
+		}
+		return 0, false
+	}
+	n := 0
+	for _, b := range fn.Blocks {
+		for _, ins := range indexInstrsOnLine(c, b, line) {
+			var x ssa.Value
+			var parts []ssa.Value
+			index := false
+			switch v := ins.(type) {
+			case *ssa.Slice:
+				x, parts = v.X, []ssa.Value{v.Low, v.High}
+			case *ssa.IndexAddr:
+				x, parts, index = v.X, []ssa.Value{v.Index}, true
+			case *ssa.Index:
+				x, parts, index = v.X, []ssa.Value{v.Index}, true
+			}
+			p, isParam := x.(*ssa.Parameter)
+			if !isParam {
+				return false, "the access is not on a parameter"
+			}
+			if param != nil && param != p {
+				return false, "accesses on several parameters share the line"
+			}
+			param = p
+			for _, part := range parts {
+				k, okB := bound(part, p, index)
+				if !okB {
+					return false, "the offset is not a constant or len(p)-constant"
+				}
+				if k > need {
+					need = k
+				}
+			}
+			n++
+		}
+	}
+	if n == 0 || param == nil {
+		return false, "the indexing instruction was not found"
+	}
+	pi := -1
+	for i, p := range fn.Params {
+		if p == param {
+			pi = i
+		}
+	}
+	sites := 0
+	for _, g := range c.analysed() {
+		calls := false
+		for _, callee := range c.staticCallees(g) {
+			if callee == fn {
+				calls = true
+			}
+		}
+		if !calls {
+			continue
+		}
+		for _, p := range c.Paths("PAN-1", g) {
+			for i := range p.Events {
+				e := &p.Events[i]
+				if e.Kind != pathx.KCall || e.Callee != fn || e.Depth != 0 || pi >= len(e.Args) {
+					continue
+				}
+				sites++
+				arg := e.Args[pi]
+				var raw ssa.Value
+				if e.Call != nil && pi < len(e.Call.Args) {
+					raw = e.Call.Args[pi]
+				}
+				have := false
+				for _, cm := range assumed(p, 0, i) {
+					for _, k := range []cmp{cm, cm.swapped()} {
+						a, isLen := builtinCall(k.X, "len")
+						if !isLen || (a != arg && a != raw) {
+							continue
+						}
+						y, isK := intConst(k.Y)
+						if !isK {
+							continue
+						}
+						switch k.Op {
+						case token.GEQ, token.EQL:
+							have = have || y >= need
+						case token.GTR:
+							have = have || y+1 >= need
+						}
+					}
+				}
+				if !have {
+					return false, fmt.Sprintf("a call from %s reaches the helper on a path that has not established len ≥ %d", load.FuncName(g), need)
+				}
+			}
+		}
+	}
+	if sites == 0 {
+		return false, "no call of the helper was found on any path"
+	}
+	return true, fmt.Sprintf("the access needs len ≥ %d of its parameter; every one of the %d path visits of a call has established that by comparison before the call", need, sites)
 }
